@@ -180,6 +180,40 @@ pub fn run(ctx: &mut Ctx) {
             next_id = (a as usize).max(f as usize) + 1;
         }
     }
+    // caller buffers of every size around the needed one, fenced by canaries: a call either fits its answer (terminator
+    // included) into the size it was given or fails; nothing behind the given size is touched
+    {
+        let cp = CString::new(w.paths[0].to_str().unwrap_or("")).unwrap();
+        let mut a: HANDLE = std::ptr::null_mut();
+        if unsafe { SFileOpenArchive(cp.as_ptr(), 0, 0, &mut a) } {
+            let plen = cp.as_bytes().len();
+            for size in 0..plen + 4 {
+                let mut buf = vec![CANARY; plen + 40];
+                let ok = unsafe { SFileGetArchiveName(a, buf[8..].as_mut_ptr() as *mut std::os::raw::c_char, size as u32) };
+                let fenced = buf[..8].iter().all(|b| *b == CANARY) && buf[8 + size..].iter().all(|b| *b == CANARY);
+                let fits = !ok || (size > plen && buf[8..8 + plen] == *cp.as_bytes() && buf[8 + plen] == 0);
+                ctx.out.oracle(fenced && fits, "ffi-wrote-outside-callers-buffer", &format!("SFileGetArchiveName with buffer_size={size} (name is {plen} bytes + terminator): returned {ok}, fence intact={fenced}"));
+                ctx.out.stat("c19.buffer_sweep.archive_name");
+            }
+            let cn = CString::new("a.txt").unwrap();
+            let mut f: HANDLE = std::ptr::null_mut();
+            let okf = unsafe { SFileOpenFileEx(a, cn.as_ptr(), 0, &mut f) };
+            for (hnd, is_file) in [(a, false), (f, true)] {
+                if is_file && !okf { continue; }
+                for class in [0u32, 1, 2, 3, 4, 5, 7, 10, 99] { for size in 0..12usize {
+                    let mut buf = vec![CANARY; 48];
+                    let mut needed: u32 = 0xABCD;
+                    let ok = unsafe { SFileGetFileInfo(hnd, class, buf[8..].as_mut_ptr() as *mut c_void, size as u32, &mut needed) };
+                    let fenced = buf[..8].iter().all(|b| *b == CANARY) && buf[8 + size..].iter().all(|b| *b == CANARY);
+                    let consistent = !ok || (needed as usize) <= size;
+                    ctx.out.oracle(fenced && consistent, "ffi-wrote-outside-callers-buffer", &format!("SFileGetFileInfo class {class} on {} with buffer_size={size}: returned {ok}, needed={needed}, fence intact={fenced}", if is_file { "a file handle" } else { "an archive handle" }));
+                    ctx.out.stat("c19.buffer_sweep.file_info");
+                } }
+            }
+            if okf { let _ = SFileCloseFile(f); }
+            let _ = SFileCloseArchive(a);
+        }
+    }
     // writable archives (SFileCreateArchive2): after every add / replace / remove / rename / flush / compact, what the C API
     // shows for every name (exists, size, bytes) is what a plain name -> bytes map says, before any flush as well as after;
     // after closing, the Rust reader sees the same map
